@@ -150,7 +150,7 @@ def completion(rng, pool, fn_ok=True, index=False):
     return {'$msg': ['/sync', rng.randint(0, 1000)]}
 
 
-def gen_op(rng, pool, in_bind, stats, multi_client):
+def gen_op(rng, pool, in_bind, stats, multi_client, nrt=True):
     """Returns one op, updating the symbolic pool."""
     nodes = pool.live_nodes()
     groups = pool.live_nodes(('group', 'pargroup'))
@@ -184,7 +184,7 @@ def gen_op(rng, pool, in_bind, stats, multi_client):
             op['action'] = rng.choice(ACTIONS)
         else:
             if not nodes:
-                return gen_op(rng, pool, in_bind, stats, multi_client)
+                return gen_op(rng, pool, in_bind, stats, multi_client, nrt)
             op['target'] = target(rng, pool, need_node=True)
             if ctor == 'replace':
                 op['same_id'] = rng.random() < 0.4
@@ -214,7 +214,7 @@ def gen_op(rng, pool, in_bind, stats, multi_client):
             op['action'] = rng.choice(ACTIONS)
         else:
             if not nodes:
-                return gen_op(rng, pool, in_bind, stats, multi_client)
+                return gen_op(rng, pool, in_bind, stats, multi_client, nrt)
             op['target'] = target(rng, pool, need_node=True)
         h = pool.new('n')
         op['out'] = h
@@ -288,7 +288,7 @@ def gen_op(rng, pool, in_bind, stats, multi_client):
             if groups and (multi_client or rng.random() < 0.7):
                 op['t'] = rng.choice(groups)
             elif multi_client:
-                return gen_op(rng, pool, in_bind, stats, multi_client)
+                return gen_op(rng, pool, in_bind, stats, multi_client, nrt)
             else:
                 op['t'] = None
         elif m == 'dump_tree':
@@ -446,7 +446,7 @@ def gen_op(rng, pool, in_bind, stats, multi_client):
     if kind == 'bufdfree':
         dead = [h for h, b in pool.bufs.items() if b['state'] == 'freed']
         if not dead:
-            return gen_op(rng, pool, in_bind, stats, multi_client)
+            return gen_op(rng, pool, in_bind, stats, multi_client, nrt)
         stats['double_free_buffer'] = True
         return {'op': 'buf', 'm': 'free', 'h': rng.choice(dead), 'completion': None}
 
@@ -468,7 +468,7 @@ def gen_op(rng, pool, in_bind, stats, multi_client):
     if kind == 'subbus':
         hs = [h for h in pool.live_buses(owns=True) if pool.buses[h]['channels'] > 1]
         if not hs:
-            return gen_op(rng, pool, in_bind, stats, multi_client)
+            return gen_op(rng, pool, in_bind, stats, multi_client, nrt)
         p = rng.choice(hs)
         pc = pool.buses[p]['channels']
         off = rng.randint(0, pc - 1)
@@ -482,10 +482,10 @@ def gen_op(rng, pool, in_bind, stats, multi_client):
         h = rng.choice(cbs + abs_)
         b = pool.buses[h]
         if b['rate'] == 'audio' and rng.random() > 0.3:
-            return gen_op(rng, pool, in_bind, stats, multi_client)
+            return gen_op(rng, pool, in_bind, stats, multi_client, nrt)
         if b['rate'] == 'audio' or rng.random() < 0.15:
             if not b['owns']:
-                return gen_op(rng, pool, in_bind, stats, multi_client)
+                return gen_op(rng, pool, in_bind, stats, multi_client, nrt)
             b['state'] = 'freed'
             for c in pool.buses.values():       # sub-buses die with the parent
                 if c.get('parent') == h:
@@ -515,7 +515,7 @@ def gen_op(rng, pool, in_bind, stats, multi_client):
     if kind == 'busfreed':
         dead = [h for h, b in pool.buses.items() if b['state'] == 'freed']
         if not dead:
-            return gen_op(rng, pool, in_bind, stats, multi_client)
+            return gen_op(rng, pool, in_bind, stats, multi_client, nrt)
         h = rng.choice(dead)
         if pool.buses[h]['rate'] == 'audio' or rng.random() < 0.5:
             stats['double_free_bus'] = True
@@ -531,7 +531,7 @@ def gen_op(rng, pool, in_bind, stats, multi_client):
         op = {'op': 'server', 'm': m}
         if m == 'reorder':
             if not nodes:
-                return gen_op(rng, pool, in_bind, stats, multi_client)
+                return gen_op(rng, pool, in_bind, stats, multi_client, nrt)
             op.update(nodes=[rng.choice(nodes) for _ in range(rng.randint(1, 4))],
                       target=target(rng, pool, int_ok=int_ok),
                       action=rng.choice(ACTIONS[:4] + ACTIONS[5:9] + [0, 1, 2, 3]))
@@ -554,6 +554,8 @@ def gen_op(rng, pool, in_bind, stats, multi_client):
                     msgs.append(['/sync', rng.randint(0, 99)])
             op['msgs'] = msgs
             op['time'] = rng.choice([None, 0, 0.1, 0.2])
+            if nrt and not in_bind and op['time']:
+                op['time'] = 0      # keeps every NRT score entry at time 0
         return op
     raise AssertionError(kind)
 
@@ -564,7 +566,7 @@ def _flags(rng):
                 clear_first=rng.choice([True, False]))
 
 
-def gen_program(rng, multi_client=False):
+def gen_program(rng, multi_client=False, nrt=True):
     """Returns (program, stats)."""
     pool = Pool()
     stats = {'add_actions': set()}
@@ -585,7 +587,7 @@ def gen_program(rng, multi_client=False):
             if fail:
                 raise_at = rng.randint(0, n)
             for k in range(n if raise_at is None else raise_at):
-                ops.append(gen_op(rng, pool, True, stats, multi_client))
+                ops.append(gen_op(rng, pool, True, stats, multi_client, nrt))
             if fail and rng.random() < 0.3:
                 # let a documented library exception escape the block instead
                 dead = [h for h, b in pool.buses.items()
@@ -609,7 +611,7 @@ def gen_program(rng, multi_client=False):
             nops += len(ops) + 1
         else:
             pool.created_in_block = []
-            prog.append(gen_op(rng, pool, False, stats, multi_client))
+            prog.append(gen_op(rng, pool, False, stats, multi_client, nrt))
             nops += 1
     stats['add_actions'] = sorted(stats['add_actions'])
     return prog, stats
